@@ -256,6 +256,12 @@ def judge_vote(R, it, res, lean):
         fixer = 0 if zero == "1" else 1
         sc = [Fraction(x) for x in r["score"]]
         cfg = {"rule": "randomized " + name, "zero_indexed": zero == "1"}
+        # "probabilities proportional to the scores": the scores are those of the profile at hand (textbook definition, exact)
+        exact = V.exact_scores(name, it["k"], P, m)
+        if any(not V.rel_close(a_, b_, Fraction(1, 10 ** 12)) for a_, b_ in zip(sc, exact)) or len(sc) != len(exact):
+            R.violation("property_violation", "the randomized rule's scores are the scores of the profile it was given", f"{ENTRY}: Randomized{name}.score", inp,
+                        impl_output=r["score"], oracle={"textbook_scores": [fr(x) for x in exact]}, config=cfg)
+            return
         if "exc" in r:
             if sum(sc) == 0:
                 R.count("randomized_rule_zero_total_raises")
@@ -330,7 +336,7 @@ def judge_other(R, it, res):
 
 def gen_other(R):
     from harness.c11 import consistent_vals
-    n = R.rng.randint(2, 5)
+    n = R.rng.randint(1, 5)
     P1 = V.rand_profile(R.rng, n, n)
     P2 = V.rand_profile(R.rng, n, n)
     def intvals(P):
